@@ -54,6 +54,8 @@ EventOK(h, ev) ==
     CASE ev.e = "Fsg" ->
             CompiledOK(h.ast, h.k, ev.refused, [n |-> ev.n, start |-> ev.start, final |-> ev.final],
                        ArcSet(h.alias, ev.arcs))
+      \* a configured start rule that no grammar defines: refused, never replaced by another rule
+      [] ev.e = "TopRule" -> ev.refused
       [] ev.e = "Norm" ->
             /\ NormalisedOK(h.ast, ev.n, ev.arcs, TolBase)
             /\ h.shape =>    \* told from the token's own arc: only when the text puts no group around it
